@@ -192,6 +192,14 @@ CHECKS = {
         "note": "Keyed joins are only constrained on retries (their per-key order argument is semantic).",
         "technique": "finite-domain evaluation of the type-level API (impl-table trait solver, associated-type normalisation, const-dependent path pruning on MIR)",
     },
+    "C31": {
+        "text": "Partial, static, one clause of four: 'all hooks of one slice are taken at the same point'. In all 31 `Slicable::slice` implementations (style wrappers and the tuple impls "
+                "that fan a slice out to its `use` bindings; rustc MIR) every call argument of type &Tick is derived solely from the slice's own `tick` parameter, each non-unit impl takes "
+                "at least one hook and a tuple impl of arity n takes n. NOT decided: that batches partition the input in order, that snapshots are monotone, that state hooks carry their "
+                "value (execution properties; the simulator side of the first two is decided structurally under C36).",
+        "note": "sliced! itself creates a single tick (macro_rules text); the check covers the code it calls.",
+        "technique": "argument-provenance (def-use) rule over all implementations of one trait method on rustc MIR",
+    },
     "C32": {
         "text": "Partial, static: library-internal order/retry/cardinality assumptions are enumerable, private and reviewed. The re-typing helpers (assume_*_trusted, cast_at_most_one_*, "
                 "assert_has_consistency_of_trusted) are not pub and ObserveNonDet{trusted:true} is built only in them; each of their ~40 call sites is evaluated under all instantiations the "
